@@ -1095,4 +1095,254 @@ theorem sem_bag_stc {κ : Type} (rs : List Rec) (K : Rec → κ) (P : κ → Boo
       · simp [h, hc, single, stCount]
     · simp [h]
 
+
+/-! ### the judge's predicate on model runs -/
+
+/-- a summary seen at whole-second resolution -/
+def secSem (x : Sem) : Sem := ⟨x.cnt, x.sd, x.st, x.stc, x.mn.map (· / 1000), x.mx / 1000⟩
+
+theorem secSem_add (a b : Sem) : secSem (a.add b) = (secSem a).add (secSem b) := by
+  apply Sem.ext' <;> simp [secSem, Sem.add, omin_map_div, max_div]
+
+theorem secSem_zero : secSem Sem.zero = Sem.zero := by
+  apply Sem.ext' <;> simp [secSem, Sem.zero]
+
+theorem semOf_toSec (a : EAgg) : semOf (toSec a) = secSem (semOf a) := rfl
+
+theorem sem_map_toSec' {κ : Type} (M : List (κ × EAgg)) (P : κ → Bool) :
+    sem (M.map fun e => (e.1, toSec e.2)) P = secSem (sem M P) := by
+  induction M with
+  | nil => simp [sem_nil, secSem_zero]
+  | cons p rest ih =>
+    simp only [List.map_cons, sem_cons, ih, secSem_add]
+    by_cases h : P p.1 = true
+    · simp only [h, if_true, semOf_toSec]
+    · simp [h, secSem_zero]
+
+theorem sem_map_toSec {κ : Type} (M : List (κ × EAgg)) (P : κ → Bool) :
+    (sem (M.map fun e => (e.1, toSec e.2)) P).cnt = (sem M P).cnt ∧
+    (∀ c, (sem (M.map fun e => (e.1, toSec e.2)) P).stc c = (sem M P).stc c) ∧
+    (sem (M.map fun e => (e.1, toSec e.2)) P).mn = (sem M P).mn.map (· / 1000) ∧
+    (sem (M.map fun e => (e.1, toSec e.2)) P).mx = (sem M P).mx / 1000 := by
+  rw [sem_map_toSec']
+  exact ⟨rfl, fun _ => rfl, rfl, rfl⟩
+
+theorem isem_map_div {κ : Type} (M : List (κ × Nat)) (P : κ → Bool) :
+    isem (M.map fun e => (e.1, e.2 / 1000)) P = (isem M P).map (· / 1000) := by
+  induction M with
+  | nil => rfl
+  | cons p rest ih =>
+    simp only [List.map_cons, isem_cons, ih, omax_map_div]
+    by_cases h : P p.1 = true <;> simp [h]
+
+theorem semAgrees_of (codes : List Nat) (a b : Sem) (h1 : a.cnt = b.cnt) (h2 : ∀ c, a.stc c = b.stc c)
+    (h3 : a.mn = b.mn.map (· / 1000)) (h4 : a.mx = b.mx / 1000) : semAgrees codes a b = true := by
+  simp only [semAgrees, Bool.and_eq_true, beq_iff_eq, List.all_eq_true]
+  exact ⟨⟨⟨h1, fun c _ => h2 c⟩, h3⟩, h4⟩
+
+theorem countOk_toSec (a : EAgg) (h : countOk a = true) : countOk (toSec a) = true := by
+  simpa [countOk, toSec] using h
+
+theorem allOk_map_toSec {κ : Type} (M : List (κ × EAgg)) (h : AllOk M) :
+    AllOk (M.map fun e => (e.1, toSec e.2)) := by
+  intro p hp
+  simp only [List.mem_map] at hp
+  obtain ⟨q, hq, rfl⟩ := hp
+  exact countOk_toSec _ (h q hq)
+
+/-- From `Totals` (Prop, about the file read back) to the judge's Boolean `conserves` on the observation. -/
+theorem conserves_of_totals (full : Bool) (p : Persisted) (recs : List Rec)
+    (ht : Totals (restore p) (external recs)) (hok : AggOk (restore p)) :
+    conserves recs (observe full 0 p) = true := by
+  obtain ⟨hE, hC, hI⟩ := ht
+  simp only [conserves, Bool.and_eq_true, List.all_eq_true]
+  refine ⟨⟨⟨⟨?_, ?_⟩, ?_⟩, ?_⟩, rfl⟩
+  · -- per method, and per tag × method
+    intro m _
+    refine ⟨?_, ?_⟩
+    · have hs := hE (· == m)
+      have ho : sem (observe full 0 p).eps (fun k => k.1 == m)
+          = sem ((restore p).endpoints.map fun e => (e.1, toSec e.2)) (fun k => k.1 == m) := by
+        cases full <;> simp [observe, sem_rekeyAny]
+      rw [ho]
+      obtain ⟨a1, a2, a3, a4⟩ := sem_map_toSec (restore p).endpoints (fun k => k.1 == m)
+      obtain ⟨s1, _, _, s4, s5, s6⟩ := hs
+      exact semAgrees_of _ _ _ (a1.trans s1) (fun c => (a2 c).trans (s4 c)) (a3.trans s5) (a4.trans s6)
+    · intro t _
+      have hs := hC (fun q => q.1 == t && q.2 == m)
+      have ho : sem (observe full 0 p).ces (fun k => k.1 == t && k.2.1 == m)
+          = sem ((restore p).consumers.map fun e => (e.1, toSec e.2)) (fun k => k.1 == t && k.2.1 == m) := by
+        cases full <;> simp [observe, sem_rekeyAny]
+      rw [ho]
+      obtain ⟨a1, a2, a3, a4⟩ := sem_map_toSec (restore p).consumers (fun k => k.1 == t && k.2.1 == m)
+      obtain ⟨s1, _, _, s4, s5, s6⟩ := hs
+      exact semAgrees_of _ _ _ (a1.trans s1) (fun c => (a2 c).trans (s4 c)) (a3.trans s5) (a4.trans s6)
+  · -- count = Σ status on every endpoint entry
+    intro e he
+    have h1 : AllOk ((restore p).endpoints.map fun e => (e.1, toSec e.2)) := allOk_map_toSec _ hok.1
+    cases full with
+    | true => exact h1 e (by simpa [observe] using he)
+    | false =>
+      have : AllOk (rekeyAny (fun k : Key => (k.1, "*")) ((restore p).endpoints.map fun e => (e.1, toSec e.2))) :=
+        allOk_regroupG _ (allOk_relabel _ _ h1)
+      exact this e (by simpa [observe] using he)
+  · intro e he
+    have h1 : AllOk ((restore p).consumers.map fun e => (e.1, toSec e.2)) := allOk_map_toSec _ hok.2
+    cases full with
+    | true => exact h1 e (by simpa [observe] using he)
+    | false =>
+      have : AllOk (rekeyAny (fun k : CKey => (k.1, (k.2.1, "*"))) ((restore p).consumers.map fun e => (e.1, toSec e.2))) :=
+        allOk_regroupG _ (allOk_relabel _ _ h1)
+      exact this e (by simpa [observe] using he)
+  · -- interceptors
+    intro i _
+    have := hI (· == i)
+    simp only [observe, isem_map_div, beq_iff_eq]
+    exact this
+
+/-- two restart-free runs whose aggregations are equal as maps are indistinguishable in the file -/
+theorem sameStats_of_aggEq (A B : Agg) (h : AggEq A B) (hnA : NodupKeys A) (hkA : KeysOK A)
+    (hnB : NodupKeys B) (hkB : KeysOK B) :
+    sameStats (observe true 0 (persist A)) (observe true 0 (persist B)) = true := by
+  have fl : ∀ (M : List (Key × EAgg)), (M.map fun p => (p.1, toMs (toSec p.2))).map (fun e => (e.1, toSec e.2))
+      = M.map fun e => (e.1, toSec e.2) := by
+    intro M; rw [List.map_map]; exact List.map_congr_left fun p _ => by simp [toSec, toMs]
+  have flC : ∀ (M : List (CKey × EAgg)), (M.map fun p => (p.1, toMs (toSec p.2))).map (fun e => (e.1, toSec e.2))
+      = M.map fun e => (e.1, toSec e.2) := by
+    intro M; rw [List.map_map]; exact List.map_congr_left fun p _ => by simp [toSec, toMs]
+  have flI : ∀ (M : IMap), (M.map fun p => (p.1, p.2 / 1000 * 1000)).map (fun e => (e.1, e.2 / 1000))
+      = M.map fun e => (e.1, e.2 / 1000) := by
+    intro M; rw [List.map_map]; exact List.map_congr_left fun p _ => by simp
+  have eqS : ∀ {κ : Type} (M M' : List (κ × EAgg)) (P : κ → Bool), sem M P = sem M' P →
+      (sem (M.map fun e => (e.1, toSec e.2)) P).cnt = (sem (M'.map fun e => (e.1, toSec e.2)) P).cnt ∧
+      (∀ c, (sem (M.map fun e => (e.1, toSec e.2)) P).stc c = (sem (M'.map fun e => (e.1, toSec e.2)) P).stc c) ∧
+      (sem (M.map fun e => (e.1, toSec e.2)) P).mn = (sem (M'.map fun e => (e.1, toSec e.2)) P).mn ∧
+      (sem (M.map fun e => (e.1, toSec e.2)) P).mx = (sem (M'.map fun e => (e.1, toSec e.2)) P).mx := by
+    intro κ M M' P e
+    obtain ⟨a1, a2, a3, a4⟩ := sem_map_toSec M P
+    obtain ⟨b1, b2, b3, b4⟩ := sem_map_toSec M' P
+    exact ⟨by rw [a1, b1, e], fun c => by rw [a2, b2, e], by rw [a3, b3, e], by rw [a4, b4, e]⟩
+  simp only [sameStats, observe, restore_persist_floor A hnA hkA, restore_persist_floor B hnB hkB, floorAgg,
+    fl, flC, flI, if_true, Bool.and_eq_true, List.all_eq_true, beq_iff_eq]
+  refine ⟨⟨?_, ?_⟩, ?_⟩
+  · intro k _
+    obtain ⟨e1, e2, e3, e4⟩ := eqS A.endpoints B.endpoints (· == k) (h.1 _)
+    exact ⟨⟨⟨e1, fun c _ => e2 c⟩, e3⟩, e4⟩
+  · intro k _
+    obtain ⟨e1, e2, e3, e4⟩ := eqS A.consumers B.consumers (· == k) (h.2.1 _)
+    exact ⟨⟨⟨e1, fun c _ => e2 c⟩, e3⟩, e4⟩
+  · intro k _
+    rw [isem_map_div, isem_map_div, h.2.2]
+
+theorem batchInvariant_of_pairwise (l : List RunObs) (h : ∀ a ∈ l, ∀ b ∈ l, sameStats a b = true) :
+    batchInvariant l = true := by
+  induction l with
+  | nil => rfl
+  | cons o rest ih =>
+    simp only [batchInvariant, Bool.and_eq_true, List.all_eq_true]
+    exact ⟨fun p hp => h o (by simp) p (by simp [hp]),
+           ih fun a ha b hb => h a (by simp [ha]) b (by simp [hb])⟩
+
+/-- in a restart-free run without rejected batches the file is always the dump of the aggregation -/
+theorem runSegs_batches_file {τ : Type} (N : Normaliser τ) (T0 : τ) (bs : List (List Rec)) (s : St τ)
+    (hf : s.file = persist s.agg) (hok : RunOK N T0 s (bs.map Seg.batch)) :
+    (runSegs N T0 s (bs.map Seg.batch)).file = persist (runSegs N T0 s (bs.map Seg.batch)).agg ∧
+    KeysOK (runSegs N T0 s (bs.map Seg.batch)).agg := by
+  induction bs generalizing s with
+  | nil => exact ⟨hf, hok⟩
+  | cons b rest ih =>
+    obtain ⟨hfail, hok'⟩ := hok
+    simp only [List.map_cons, runSegs]
+    refine ih _ ?_ hok'
+    unfold stepS
+    by_cases he : b.isEmpty = true
+    · simpa [he] using hf
+    · simp [he, hfail]
+
+theorem runSegs_nodup {τ : Type} (N : Normaliser τ) (T0 : τ) (segs : List Seg) (s : St τ)
+    (h : NodupKeys s.agg) : NodupKeys (runSegs N T0 s segs).agg := by
+  induction segs generalizing s with
+  | nil => exact h
+  | cons seg rest ih =>
+    cases seg with
+    | batch rs =>
+      simp only [runSegs]
+      exact ih _ (by rw [stepS_agg]; exact nodupKeys_step N _ _ _ h)
+    | restart =>
+      simp only [runSegs]
+      exact ih _ (nodupKeys_restore _)
+
+
+theorem failCount_zero {τ : Type} (N : Normaliser τ) (T0 : τ) (segs : List Seg) (s : St τ)
+    (hok : RunOK N T0 s segs) : failCount N T0 s segs = 0 := by
+  induction segs generalizing s with
+  | nil => rfl
+  | cons seg rest ih =>
+    cases seg with
+    | batch rs => obtain ⟨hf, hok'⟩ := hok; simp [failCount, hf, ih _ hok']
+    | restart => obtain ⟨_, hok'⟩ := hok; simp [failCount, ih _ hok']
+
+
+/-! ### the `METHOD:::URL` key split -/
+
+theorem splitDelim_ne_nil (l : List Char) : splitDelim l ≠ [] := by
+  fun_induction splitDelim l <;> simp_all
+
+theorem hasDelim_cons (x : Char) (xs : List Char)
+    (hne : ∀ rest, x :: xs = ':' :: ':' :: ':' :: rest → False) : hasDelim (x :: xs) = hasDelim xs := by
+  rw [hasDelim.eq_def]
+  split
+  · rename_i heq; exact absurd heq (hne _)
+  · rename_i heq; injection heq with _ e; rw [e]
+  · rename_i heq; cases heq
+
+theorem splitDelim_noDelim (l : List Char) (h : hasDelim l = false) : splitDelim l = [l] := by
+  fun_induction splitDelim l with
+  | case1 => rfl
+  | case2 rest ih => simp [hasDelim] at h
+  | case3 x xs hne hd tl heq ih =>
+    rw [hasDelim_cons x xs (fun rest e => by injection e with e1 e2; exact hne rest e1 e2)] at h
+    rw [ih h] at heq
+    simp at heq
+    obtain ⟨rfl, rfl⟩ := heq
+    rfl
+  | case4 x xs hne heq ih => exact absurd heq (splitDelim_ne_nil xs)
+
+theorem splitDelim_cons_ne (c : Char) (xs : List Char) (hc : c ≠ ':') :
+    splitDelim (c :: xs) = (match splitDelim xs with | h :: t => (c :: h) :: t | [] => [[c]]) := by
+  rw [splitDelim.eq_def]
+  split
+  · rename_i heq; cases heq
+  · rename_i heq; injection heq with e _; exact absurd e hc
+  · rename_i heq; injection heq with e1 e2; subst e1 e2; rfl
+
+theorem splitDelim_prefix (m u : List Char) (hm : m.all (· != ':') = true) :
+    splitDelim (m ++ ':' :: ':' :: ':' :: u) = m :: splitDelim u := by
+  induction m with
+  | nil => simp [splitDelim]
+  | cons c rest ih =>
+    simp only [List.all_cons, Bool.and_eq_true, bne_iff_ne, ne_eq] at hm
+    rw [List.cons_append, splitDelim_cons_ne _ _ hm.1, ih hm.2]
+
+theorem restoreKey_dumpKey (k : Key) (hm : k.1.toList.all (· != ':') = true)
+    (hu : hasDelim k.2.toList = false) : restoreKey (dumpKey k) = k := by
+  obtain ⟨m, u⟩ := k
+  simp only [restoreKey, dumpKey, String.toList_append]
+  have : ":::".toList = [':', ':', ':'] := by decide
+  rw [this]
+  simp only [List.append_assoc, List.cons_append, List.nil_append]
+  rw [splitDelim_prefix _ _ hm, splitDelim_noDelim _ hu]
+  simp
+
+
+theorem keysOK_of_cleanKeys (A : Agg) (he : ∀ p ∈ A.endpoints, cleanKey p.1 = true)
+    (hc : ∀ p ∈ A.consumers, cleanKey p.1.2 = true) : KeysOK A := by
+  refine ⟨fun p hp => ?_, fun p hp => ?_⟩
+  · have := he p hp
+    simp only [cleanKey, Bool.and_eq_true, Bool.not_eq_true'] at this
+    exact restoreKey_dumpKey _ this.1 this.2
+  · have := hc p hp
+    simp only [cleanKey, Bool.and_eq_true, Bool.not_eq_true'] at this
+    exact restoreKey_dumpKey _ this.1 this.2
+
 end LunarVerif.C15
